@@ -122,17 +122,51 @@ fn one_case(rep: &Report, rng: &mut Rng, cfg: &GenCfg, systematic: bool) {
                     rep.violation(&sig, case.witness(Some(&out.rows), Some(&rows), &diff));
                     return;
                 }
-                // 2. localisation by feature toggle: does switching one engine feature off restore agreement?
-                for (key, sig) in [("datafusion.optimizer.enable_topk_dynamic_filter_pushdown", "topk-dynamic-filter-drops-rows")] {
-                    if let Some(rows2) = rerun_with(&case, key, "false") {
+                // 2. semantic-preserving rewrites that disable a known trigger: does the engine agree then?
+                //    (a) ORDER BY .. LIMIT evaluated as "sort everything, then cut" by the harness
+                if case.query.limit.is_some() || case.query.offset.is_some() {
+                    let mut q2 = case.query.clone();
+                    let (lim, off) = (q2.limit.take(), q2.offset.take());
+                    if let Some(mut rows2) = rerun_sql(&case, &dfv::ast::to_sql(&q2)) {
+                        let o = (off.unwrap_or(0) as usize).min(rows2.len());
+                        rows2.drain(..o);
+                        if let Some(l) = lim {
+                            rows2.truncate(l as usize);
+                        }
                         if compare(&rows2, &rows, &case.mode).is_ok() {
-                            let sig = if case.feats.contains("union-all") { format!("{sig}/union-all") } else { sig.to_string() };
-                            rep.violation(&sig, case.witness(Some(&out.rows), Some(&rows), &format!("{diff}; agrees with the reference when {key}=false")));
+                            let sig = if case.feats.contains("union-all") { "limit-pushdown-drops-rows/union-all" } else { "limit-pushdown-drops-rows" };
+                            rep.violation(sig, case.witness(Some(&out.rows), Some(&rows), &format!("{diff}; the same query without LIMIT/OFFSET, cut by the harness, agrees with the reference")));
                             return;
                         }
                     }
                 }
-                rep.violation("result-mismatch", case.witness(Some(&out.rows), Some(&rows), &diff));
+                //    (b) top-level ORDER BY keys made opaque (coalesce(k, k)): a sort can no longer be elided
+                if !case.query.order_by.is_empty() {
+                    let mut q2 = case.query.clone();
+                    for o in q2.order_by.iter_mut() {
+                        o.expr = dfv::ast::Expr::Coalesce(vec![o.expr.clone(), o.expr.clone()]);
+                    }
+                    if let Some(rows2) = rerun_sql(&case, &dfv::ast::to_sql(&q2)) {
+                        if compare(&rows2, &rows, &case.mode).is_ok() {
+                            rep.violation("sort-elided-wrong-order", case.witness(Some(&out.rows), Some(&rows), &format!("{diff}; with opaque ORDER BY keys (coalesce(k,k)) the engine agrees with the reference")));
+                            return;
+                        }
+                    }
+                }
+                // 3. unexplained: minimise the witness
+                let small = dfv::shrink::shrink(
+                    &case,
+                    &|c: &Case| match (c.reference(), rerun_sql(c, &c.sql)) {
+                        (Ok(r), Some(e)) => compare(&e, &r, &c.mode).is_err() && dfv::cases::explain_by_known_deviation(c, &e).is_none(),
+                        _ => false,
+                    },
+                    400,
+                );
+                let mut w = case.witness(Some(&out.rows), Some(&rows), &diff);
+                if let (Ok(r), Some(e)) = (small.reference(), rerun_sql(&small, &small.sql)) {
+                    w["minimised"] = small.witness(Some(&e), Some(&r), "minimised by delta debugging");
+                }
+                rep.violation("result-mismatch", w);
             } else if rep.want_sample() && nontrivial && case.feats.len() >= 3 {
                 rep.sample(json!({"sql": case.sql, "rows": rows.len(), "features": case.feats.iter().collect::<Vec<_>>()}));
             }
@@ -140,14 +174,13 @@ fn one_case(rep: &Report, rng: &mut Rng, cfg: &GenCfg, systematic: bool) {
     }
 }
 
-/// Re-run the case's SQL with one configuration key changed (same tables, same layout).
-fn rerun_with(case: &Case, key: &str, value: &str) -> Option<Vec<dfv::value::Row>> {
-    let sql = case.sql.clone();
+/// Re-run some SQL text over the case's tables (same layout, same configuration).
+fn rerun_sql(case: &Case, sql: &str) -> Option<Vec<dfv::value::Row>> {
+    let sql = sql.to_string();
     vcommon::par::guard(|| {
         let rt = current_thread_rt();
         rt.block_on(async {
             let ctx = default_ctx(3, 3);
-            ctx.sql(&format!("SET {key} = {value}")).await.ok()?.collect().await.ok()?;
             register_db_layout(&ctx, &case.db, &case.layout).ok()?;
             run_sql(&ctx, &sql).await.ok().map(|o| o.rows)
         })
